@@ -23,6 +23,7 @@ OWN_CFG = """SPECIFICATION Spec
 CONSTANT N = %d
 CONSTANT Minor = %d
 CONSTANT EMIT = TRUE
+CONSTANT Tmpl = "%s"
 INVARIANT Disjoint
 INVARIANT ExpectedIsBoth
 CONSTRAINT Emit
@@ -30,11 +31,11 @@ CHECK_DEADLOCK FALSE
 """
 
 
-def enumerate_cases(chk, n, minor):
-    r = tlc.run("Ownership", OWN_CFG % (n, minor), workers=1, timeout=1800, name="Ownership-%d" % n, xmx="6g")
+def enumerate_cases(chk, n, minor, tmpl="mixed"):
+    r = tlc.run("Ownership", OWN_CFG % (n, minor, tmpl), workers=1, timeout=1800, name="Ownership-%d" % n, xmx="6g")
     if r.invariant_violated or r.error:
         raise tlc.TLCError("Ownership: %s\n%s" % (r.error, r.out[-1500:]))
-    chk.add_model(r, "Ownership N=%d Minor=%d" % (n, minor))
+    chk.add_model(r, "Ownership N=%d Minor=%d Tmpl=%s" % (n, minor, tmpl))
     return r.json_lines("CASE")
 
 
@@ -137,18 +138,21 @@ def run():
     r = common.rng("c06")
     tasks = []
     discarded = 0
-    plan = [(2, 5, None), (2, 4, None), (3, 5, 500 if chk.quick else None), (3, 2, 200 if chk.quick else None)]
+    plan = [(2, 5, None, "mixed"), (2, 4, None, "mixed"), (3, 5, 500 if chk.quick else None, "mixed"),
+            (3, 2, 200 if chk.quick else None, "mixed"),
+            (2, 4, None, "similar"), (3, 4, 300 if chk.quick else None, "similar"), (3, 5, 150 if chk.quick else None, "similar")]
     if not chk.quick:
-        plan.append((4, 5, 12000))
-        plan.append((4, 4, 3000))
+        plan.append((4, 5, 12000, "mixed"))
+        plan.append((4, 4, 3000, "mixed"))
+        plan.append((4, 4, 3000, "similar"))
     total = 0
-    for n, minor, sample in plan:
-        cases = enumerate_cases(chk, n, minor)
+    for n, minor, sample, tmpl in plan:
+        cases = enumerate_cases(chk, n, minor, tmpl)
         total += len(cases)
         if sample is not None and sample < len(cases):
             r.shuffle(cases)
             cases = cases[:sample]
-        t, bad = nb_tasks(cases, "o%d-%d" % (n, minor))
+        t, bad = nb_tasks(cases, "o%d-%d%s" % (n, minor, tmpl[0]))
         tasks += t
         discarded += bad
     gtasks = generic_tasks()
